@@ -209,7 +209,7 @@ func (s *Sched) Quiesce(maxWait time.Duration) (blocked []GoroutineInfo, ok bool
 			if ign {
 				continue
 			}
-			if blockedReasons[g.Reason] {
+			if blockedReasons[g.Reason] && !runtimeInternalWait(g) {
 				blocked = append(blocked, g)
 				continue
 			}
@@ -264,4 +264,18 @@ func rootOf(st string) string {
 		return fn[len(fn)-2] + "\n" + fn[len(fn)-1]
 	}
 	return fn[len(fn)-1]
+}
+
+// runtimeInternalWait: a [semacquire] wait is a durable block only when it is a
+// sync.WaitGroup wait; the same reason is shown while a goroutine waits inside
+// runtime.GC()/debug.FreeOSMemory() (e.g. called by scrypt key derivation), which
+// ends by itself.
+func runtimeInternalWait(g GoroutineInfo) bool {
+	if g.Reason != "semacquire" {
+		return false
+	}
+	if strings.Contains(g.Stack, "sync.(*WaitGroup).Wait") {
+		return false
+	}
+	return true
 }
